@@ -289,6 +289,9 @@ def run_sequence(seq, variant=0):
                     po = "PNonLinear"
                 except NoObjectiveError:
                     po = "PNoObjective"
+                except Exception as ex:
+                    po = "PNone"                  # no model observation looks like this: the tie breaks and the witness search takes over
+                    pyseen.append({"letter": L, "raised": repr(ex)[:200]})
                 else:
                     if S.linprog_calls:
                         c = S.linprog_calls[0]
@@ -348,15 +351,18 @@ def seam_vs_fresh(seq, variant=0):
             try:
                 if R.edit(L):
                     continue
-                fa = feasible_answer(R.P)
-                with stubs.Seams(minimize_script=[fa, fa]) as S:
-                    R.P.solve(method=L[2:])
-                live = seam_snapshot(S, R.P, R.w)
-                F = R.fresh()
-                fb = feasible_answer(F)
-                with stubs.Seams(minimize_script=[fb, fb]) as S2:
-                    F.solve(method=L[2:])
-                fresh = seam_snapshot(S2, F, R.w)
+                def attempt(Pr):
+                    fa = feasible_answer(Pr)
+                    try:
+                        with stubs.Seams(minimize_script=[fa, fa]) as S:
+                            Pr.solve(method=L[2:])
+                        return seam_snapshot(S, Pr, R.w)
+                    except Exception as ex:
+                        return {"route": "raised", "error": type(ex).__name__ + ": " + str(ex)[:120]}
+                live = attempt(R.P)
+                fresh = attempt(R.fresh())
+                if live.get("route") == "raised" and fresh.get("route") == "raised" and live["error"].split(":")[0] == fresh["error"].split(":")[0]:
+                    continue              # both reject the request the same way (no objective, non-linear model for an LP method ...)
             except Exception:
                 continue
         if live != fresh:
